@@ -79,8 +79,12 @@ def apply(r, op):
         return r.read_subplane(*op[1:5])
     if k == 'hdr':
         return r.gen_trace_header(op[1])
+    if k == 'hdrall':
+        return r.gen_trace_header(op[1], load_all_headers=True)
     if k == 'tfv':
         return r.get_tracefield_values(op[1])
+    if k == 'rvh':     # loads header arrays in one padding mode; returns nothing
+        return r.read_variant_headers(include_padding=op[1])
     raise ValueError(op)
 
 
